@@ -371,6 +371,20 @@ func (e *Eng) litKnown(fn *ssa.Function, a LitM) bool {
 			return true
 		}
 	}
+	// the condition is computed as a value (returned, or one operand of a conjunction that is returned)
+	for _, in := range AllInstrs(fn) {
+		v, ok := in.(ssa.Value)
+		if !ok || !isBoolType(v.Type()) {
+			continue
+		}
+		switch in.(type) {
+		case *ssa.BinOp, *ssa.UnOp, *ssa.Call:
+			l := e.CondLit(fn, v)
+			if a.F(l) || a.Neg().F(l) {
+				return true
+			}
+		}
+	}
 	return false
 }
 
